@@ -163,6 +163,49 @@ class ParserModel:
                     return
         self.unmodelled.append(ast.unparse(st)[:80])
 
+    def record_method(self, call):
+        """record.method(parser) where `record` is a constant record of a package class (a NamedTuple built from constants, possibly
+        through _replace): the method's statements with `self.field` replaced by the field's constant and its parser parameter by
+        the actual parser; `if` tests on those constants are decided. False when the receiver is not such a record."""
+        from ..evalr import Frame, Summary, _Obj
+        import copy
+        try:
+            obj = self.ev.expr(call.func.value, Frame(self.ev, self.mod.name, None, Summary(None), 0))
+        except Exception:
+            return False
+        if not isinstance(obj, _Obj) or not all(v is None or (isinstance(v, (str, int, float, bool)) and not isinstance(v, T)) for v in obj.fields.values()):
+            return False
+        meths, _a = self.ev.class_members(obj.modname, obj.cls)
+        fi = meths.get(call.func.attr)
+        if fi is None or len(fi.node.args.args) != 2:
+            return False
+        selfname, pname = fi.node.args.args[0].arg, fi.node.args.args[1].arg
+        actual = call.args[0].id
+
+        class Ren(ast.NodeTransformer):
+            def visit_Name(self, n):
+                return ast.copy_location(ast.Name(id=actual, ctx=n.ctx), n) if n.id == pname else n
+
+        def run(stmts):
+            for st in stmts:
+                if isinstance(st, ast.Expr) and isinstance(st.value, ast.Constant):
+                    continue
+                st = Ren().visit(_RowSubst({selfname: obj}).visit(copy.deepcopy(st)))
+                ast.fix_missing_locations(st)
+                if isinstance(st, ast.If):
+                    try:
+                        c = self.ev.expr(st.test, Frame(self.ev, self.mod.name, None, Summary(None), 0))
+                    except Exception:
+                        c = None
+                    if c is True or c is False:
+                        run(st.body if c else st.orelse)
+                        continue
+                    self.unmodelled.append(ast.unparse(st)[:80])
+                    continue
+                self.stmt(st)
+        run(fi.node.body)
+        return True
+
     def table_rows(self, node):
         from ..evalr import Frame, Summary, _Obj
         try:
@@ -194,6 +237,9 @@ class ParserModel:
             self.decls.append(ArgDecl(self.parsers[p[0]], flags, kw, call))
         elif p and len(p) == 1 and p[0] in self.helpers and call.args and isinstance(call.args[0], ast.Name) and call.args[0].id in self.parsers:
             self.helper(p[0], self.parsers[call.args[0].id], call)
+        elif self.ev is not None and isinstance(call.func, ast.Attribute) and len(call.args) == 1 and not call.keywords and isinstance(call.args[0], ast.Name) and \
+                call.args[0].id in self.parsers and self.record_method(call):
+            pass  # options declared through a method of a constant record (StandardOptions(...).add_to(parser)): inlined
         elif p and len(p) == 2 and p[1] in ("add_argument", "set_defaults", "add_subparsers", "add_parser"):
             self.unmodelled.append(ast.unparse(call)[:80])
 
@@ -509,7 +555,8 @@ def check_base_command(ctx, fm):
     if branch is None:
         return
     node3 = ast.FunctionDef(name="__base_command", args=ast.arguments(posonlyargs=[], args=[ast.arg(arg="args"), ast.arg(arg="config")], kwonlyargs=[], kw_defaults=[], defaults=[]),
-                            body=list(branch.body), decorator_list=[], returns=None, type_comment=None)
+                            body=[st for st in fm.node.body if isinstance(st, ast.FunctionDef)] + list(branch.body),  # (local helpers of main() the branch may call)
+                            decorator_list=[], returns=None, type_comment=None)
     node3.type_params = []
     ast.copy_location(node3, branch)
     ast.fix_missing_locations(node3)
